@@ -186,7 +186,9 @@ pub fn run(ctx: &Ctx) -> ! {
             samples.push(serde_json::json!({"program": w.programs[0].source, "files": w.files, "ops": w.nodes[0].ops}));
         }
     }
-    let _ = run_and_judge(ctx, "c04", &sessions, &mut rep, &mut ev, true);
+    // worlds of one session share the process (schema cache, lazily initialised statics): history is part of the
+    // case, so the whole session is the candidate and the minimiser drops worlds
+    let _ = run_and_judge(ctx, "c04", &sessions, &mut rep, &mut ev, false);
     ev.evaluations += file_cases;
     println!("file states: {file_cases} cases ({:.1}s)", ctx.start.elapsed().as_secs_f64());
 
